@@ -1,5 +1,5 @@
 SPECIFICATION Spec
 CONSTANT BaseIds = {1, 2, 3}
-CONSTANT Double = FALSE
+CONSTANT Double = TRUE
 INVARIANTS Export BasesValid
 CHECK_DEADLOCK FALSE
